@@ -83,7 +83,7 @@ CLAIMS["C07"] = dict(
          "formulas (unit normal, sin/cos of the turn, miter, bevel, the squaring line of the square join, round start and rotation step, perpendicular offset) equal the textbook "
          "formulas as polynomial normal forms (engine E14) and OffsetPoint dispatches every convex vertex to the construction of its JoinType, "
          "mitering exactly while the miter length is within the limit; (viii) the length below which the bisector of a square join counts as zero is "
-         "not above the shortest bisector the dispatch lets through (relation between two literals read from the code). Every path through OffsetPolygon / OffsetOpenJoined / OffsetOpenPath appends a contour (EMIT.every-path).",
+         "not above the shortest bisector the dispatch lets through (relation between two literals read from the code). Every path through OffsetPolygon / OffsetOpenJoined / OffsetOpenPath appends a contour (EMIT.every-path). InflatePaths binds its options to the ClipperOffset options of the same name (OPTIONS.forwarded).",
     note="Stroke geometry, cap extents, circles for points are NOT decided. Stale normals passed to a delta callback (D12) are reported under C12.",
     technique="static analysis: loop-carried-state dataflow + AST rule on reads of delta + interpreted dispatch tables",
     design="§3 E2/E3, §4 C07", engine="E2")
@@ -202,7 +202,7 @@ CLAIMS["C03"] = dict(
          "(must-precede dataflow over all 7 builder call sites); CleanCollinear's removal condition table; BuildPath's degenerate-ring guard table and "
          "duplicate-skipping copy loop; option members written only by their setters; OutRec::path built only in CheckBounds; D builders equal 64 builders; "
          "IsCollinear / CrossProduct / DotProduct (the collinearity and spike tests) are the textbook polynomials (engine E14); the builders' index loops "
-         "over outrec_list_ re-read its size, so rings split off while building are cleaned and emitted too; every method that can add local minima invalidates the sorted flag (minima popped out of order leave edges extended past their top vertex).",
+         "over outrec_list_ re-read its size, so rings split off while building are cleaned and emitted too; every method that can add local minima invalidates the sorted flag (minima popped out of order leave edges extended past their top vertex). The intersection routines subtract only coordinates, min / max choices or means of two from a coordinate before converting to double (ORIGIN.convex, both precision variants).",
     note="Bounding box, zero area, spikes, crossings, orientation-vs-nesting, collinearity of the result and idempotence under Union are NOT decided.",
     technique="static analysis: must-precede dataflow + interpreted condition tables + sibling identity",
     design="§3 E10/E3/E6, §4 C03", engine="E10")
@@ -260,7 +260,7 @@ CLAIMS["C06"] = dict(
          "with and without USINGZ in every offsetter function, the join formulas as polynomial normal forms and the join dispatch on convex "
          "vertices (Miter within the limit else Square; Round; Bevel; Square), no return before the clean-up union except on 'no input / no "
          "output / error', the caller's delta_ read only where the orientation-corrected group_delta_ is derived, the result container emptied before anything is added (also through the member pointer that aliases it), and "
-         "independence of the groups of one ClipperOffset (loop-carried-state dataflow); tables extracted by interpreting the AST over the complete finite domain of the flags. The join dispatch is judged with the threshold the code itself stores for a given MiterLimit (the computing and the comparing site together).",
+         "independence of the groups of one ClipperOffset (loop-carried-state dataflow); tables extracted by interpreting the AST over the complete finite domain of the flags. The join dispatch is judged with the threshold the code itself stores for a given MiterLimit (the computing and the comparing site together). InflatePaths binds its options to the ClipperOffset options of the same name (OPTIONS.forwarded).",
     note="What the joined offset curves enclose - tolerance bands, the square join's corner construction (DoSquare), concave vertices, shrinking "
          "beyond the inradius - is NOT decided; the formulas are decided as real-number formulas, not their floating-point evaluation.",
     technique="static analysis: interpreted decision tables over complete finite flag domains + identities of polynomial normal forms",
